@@ -26,19 +26,26 @@ open Generated.C16 Model.C16 C16L Finset
 
 /-- the ADC ceiling is the largest code of a `bits`-bit converter, `2^bits − 1` -/
 theorem gen_adc_cap (bits : Int) : Generated.C16.adcCap bits = 2 ^ bits.toNat - 1 := by
-  simp only [Generated.C16.adcCap]
+  simp only [Generated.C16.adcCap, Model.C16.adcCap]
 
 /-- container widths 8 / 16 / 32 by bit depth -/
 theorem gen_cast_bits (bits : Int) : Generated.C16.castBits bits = Model.C16.castBits bits := rfl
 
 /-- the analogue chain of `Detector.expose` (signal + dark, PRNU, bias, full-well clip, gain, clip at 0,
-clip at the ADC ceiling) is the modelled one, for every scalar type and every input -/
-theorem gen_expose_chain {K : Type} [Num K] [LT K] [DecidableLT K] (img t dc dcnu prnu bias fwc gain : K) (bits : Int) :
+clip at the ADC ceiling) is the modelled one, for every ordered field and every input (up to commuting
+a sum or a product) -/
+theorem gen_expose_chain {K : Type} [Field K] [LinearOrder K] [IsStrictOrderedRing K]
+    (img t dc dcnu prnu bias fwc gain : K) (bits : Int) :
     Generated.C16.exposePre img t dc dcnu prnu bias fwc gain bits
-      = Model.C16.exposePreCap (Generated.C16.adcCap bits) img t dc dcnu prnu bias fwc gain := rfl
+      = Model.C16.exposePreCap (Generated.C16.adcCap bits) img t dc dcnu prnu bias fwc gain := by
+  first
+    | rfl
+    | (simp only [Generated.C16.exposePre, Model.C16.exposePre, Model.C16.exposePreCap, clipAbove, clipBelow0,
+        Generated.C16.adcCap, Model.C16.adcCap, mul_comm, mul_left_comm, add_comm, add_left_comm]; done)
 
 /-- hence the generated chain is the model's -/
-theorem gen_expose {K : Type} [Num K] [LT K] [DecidableLT K] (img t dc dcnu prnu bias fwc gain : K) (bits : Int) :
+theorem gen_expose {K : Type} [Field K] [LinearOrder K] [IsStrictOrderedRing K]
+    (img t dc dcnu prnu bias fwc gain : K) (bits : Int) :
     Generated.C16.exposePre img t dc dcnu prnu bias fwc gain bits = Model.C16.exposePre img t dc dcnu prnu bias fwc gain bits := by
   rw [gen_expose_chain, gen_adc_cap]; rfl
 
@@ -78,12 +85,16 @@ theorem gen_kernels :
   refine ⟨by decide +kernel, by decide +kernel, by decide +kernel, by decide +kernel, by decide +kernel, ?_⟩
   funext s; cases s <;> simp only [Generated.C16.srcKernel, Model.C16.srcKernel] <;> decide +kernel
 
-/-- safe white-balance limiting: the loop step is the modelled running maximum, every colour plane is
-inspected (4 mosaic planes before demosaicking, 3 channels after) and every gain is divided by the ratio -/
-theorem gen_wb_safe {K : Type} [Num K] [LT K] [DecidableLT K] (r mx sat : K) :
-    wbPreSafeStep r mx sat = Model.C16.safeStep r mx sat ∧ wbPostSafeStep r mx sat = Model.C16.safeStep r mx sat ∧
-    wbPreSafePlanes = 4 ∧ wbPostSafePlanes = 3 ∧ wbPreSafeDividesEveryGain = true ∧ wbPostSafeDividesEveryGain = true :=
-  ⟨rfl, rfl, by decide, by decide, by decide, by decide⟩
+/-- safe white-balance limiting: from a ratio `r ≥ 1` the loop step moves to `max r (mx / sat)` (running maximum,
+however the comparison is written), every colour plane is inspected (4 mosaic planes before demosaicking,
+3 channels after) and every gain is divided by the ratio -/
+theorem gen_wb_safe {K : Type} [Field K] [LinearOrder K] [IsStrictOrderedRing K] :
+    IsMaxStep (wbPreSafeStep : K → K → K → K) ∧ IsMaxStep (wbPostSafeStep : K → K → K → K) ∧
+    wbPreSafePlanes = 4 ∧ wbPostSafePlanes = 3 ∧ wbPreSafeDividesEveryGain = true ∧ wbPostSafeDividesEveryGain = true := by
+  refine ⟨?_, ?_, by decide, by decide, by decide, by decide⟩ <;>
+  · intro r mx sat hr
+    simp only [wbPreSafeStep, wbPostSafeStep, Model.C16.safeStep, Num.ofInt, Int.cast_one, max_def]
+    grind
 
 /-! ## exposure -/
 section expose
@@ -148,7 +159,7 @@ variable {d : ℕ} (s f : Fin d → ℕ) {K : Type} [Field K]
 theorem bin_tile_lengths (s f : Int) (hf : 0 < f) (hd : f ∣ s) :
     Generated.C16.binOutLen s f * f = s ∧ Generated.C16.tileOutLen (Generated.C16.binOutLen s f) f = s := by
   obtain ⟨k, rfl⟩ := hd
-  simp only [Generated.C16.binOutLen, Generated.C16.tileOutLen]
+  simp only [Generated.C16.binOutLen, Generated.C16.tileOutLen, Model.C16.binOutLen, Model.C16.tileOutLen]
   have : Int.fdiv (f * k) f = k := by
     rw [Int.fdiv_eq_ediv_of_nonneg _ hf.le, Int.mul_ediv_cancel_left _ hf.ne']
   rw [this]; constructor <;> ring
@@ -210,6 +221,12 @@ end bin
 /-! ## Bayer mosaics -/
 section bayer
 
+/-- rewrite every generated table to the model's (translated obligations `gen_bayer`, `gen_kernels`) -/
+local macro "to_model" : tactic =>
+  `(tactic| simp only [gen_bayer.1, gen_bayer.2.1, gen_bayer.2.2.1, gen_bayer.2.2.2.1, gen_bayer.2.2.2.2.1,
+      gen_bayer.2.2.2.2.2.1, gen_kernels.1, gen_kernels.2.1, gen_kernels.2.2.1, gen_kernels.2.2.2.1,
+      gen_kernels.2.2.2.2.1, gen_kernels.2.2.2.2.2] at *)
+
 theorem mem_even (k : ℕ) : (Slc.mk 0 2).mem k = true ↔ k % 2 = 0 := by
   simp [Slc.mem]
 
@@ -222,23 +239,26 @@ def inSite (s : Site) (R C : ℕ) : Prop :=
 
 /-- the four colour-site slices partition the samples: every `(R, C)` lies in exactly one of them -/
 theorem bayer_partition (R C : ℕ) : ∃! s : Site, inSite s R C := by
+  unfold inSite
+  to_model
   have hR : R % 2 = 0 ∨ R % 2 = 1 := by omega
   have hC : C % 2 = 0 ∨ C % 2 = 1 := by omega
   rcases hR with hR | hR <;> rcases hC with hC | hC
   · refine ⟨.tl, ⟨(mem_even R).2 hR, (mem_even C).2 hC⟩, ?_⟩
-    rintro s ⟨h1, h2⟩; cases s <;> simp only [Generated.C16.siteSlices, mem_even, mem_odd] at h1 h2 <;> first | rfl | omega
+    rintro s ⟨h1, h2⟩; cases s <;> simp only [Model.C16.siteSlices, mem_even, mem_odd] at h1 h2 <;> first | rfl | omega
   · refine ⟨.tr, ⟨(mem_even R).2 hR, (mem_odd C).2 hC⟩, ?_⟩
-    rintro s ⟨h1, h2⟩; cases s <;> simp only [Generated.C16.siteSlices, mem_even, mem_odd] at h1 h2 <;> first | rfl | omega
+    rintro s ⟨h1, h2⟩; cases s <;> simp only [Model.C16.siteSlices, mem_even, mem_odd] at h1 h2 <;> first | rfl | omega
   · refine ⟨.bl, ⟨(mem_odd R).2 hR, (mem_even C).2 hC⟩, ?_⟩
-    rintro s ⟨h1, h2⟩; cases s <;> simp only [Generated.C16.siteSlices, mem_even, mem_odd] at h1 h2 <;> first | rfl | omega
+    rintro s ⟨h1, h2⟩; cases s <;> simp only [Model.C16.siteSlices, mem_even, mem_odd] at h1 h2 <;> first | rfl | omega
   · refine ⟨.br, ⟨(mem_odd R).2 hR, (mem_odd C).2 hC⟩, ?_⟩
-    rintro s ⟨h1, h2⟩; cases s <;> simp only [Generated.C16.siteSlices, mem_even, mem_odd] at h1 h2 <;> first | rfl | omega
+    rintro s ⟨h1, h2⟩; cases s <;> simp only [Model.C16.siteSlices, mem_even, mem_odd] at h1 h2 <;> first | rfl | omega
 
 /-- the site of a sample by parity -/
 def siteOfParity (R C : ℕ) : Site :=
   if R % 2 = 0 then (if C % 2 = 0 then .tl else .tr) else (if C % 2 = 0 then .bl else .br)
 
 theorem siteAt_eq (R C : ℕ) : siteAt Generated.C16.siteSlices R C = some (siteOfParity R C) := by
+  to_model
   have hR : R % 2 = 0 ∨ R % 2 = 1 := by omega
   have hC : C % 2 = 0 ∨ C % 2 = 1 := by omega
   have e0 : ∀ k, (Slc.mk 0 2).mem k = decide (k % 2 = 0) := fun k => by
@@ -246,15 +266,16 @@ theorem siteAt_eq (R C : ℕ) : siteAt Generated.C16.siteSlices R C = some (site
   have e1 : ∀ k, (Slc.mk 1 2).mem k = decide (k % 2 = 1) := fun k => by
     rw [Bool.eq_iff_iff, mem_odd]; simp
   rcases hR with hR | hR <;> rcases hC with hC | hC <;>
-    simp [siteAt, Site.all, Generated.C16.siteSlices, siteOfParity, e0, e1, hR, hC, List.find?]
+    simp [siteAt, Site.all, Model.C16.siteSlices, siteOfParity, e0, e1, hR, hC, List.find?]
 
 theorem idx_pos_site (R C : ℕ) :
     (Generated.C16.siteSlices (siteOfParity R C)).1.idx ((Generated.C16.siteSlices (siteOfParity R C)).1.pos R) = R ∧
     (Generated.C16.siteSlices (siteOfParity R C)).2.idx ((Generated.C16.siteSlices (siteOfParity R C)).2.pos C) = C := by
+  to_model
   have hR : R % 2 = 0 ∨ R % 2 = 1 := by omega
   have hC : C % 2 = 0 ∨ C % 2 = 1 := by omega
   rcases hR with hR | hR <;> rcases hC with hC | hC <;>
-    simp only [siteOfParity, hR, hC, Generated.C16.siteSlices, Slc.idx, Slc.pos, if_true, if_false,
+    simp only [siteOfParity, hR, hC, Model.C16.siteSlices, Slc.idx, Slc.pos, if_true, if_false,
       Nat.one_ne_zero, reduceCtorEq] <;> omega
 
 /-- the plane ↔ site tables of decomposition and recomposition are mutually inverse, both layouts -/
@@ -262,7 +283,11 @@ theorem bayer_tables_inverse (cfa : Cfa) :
     (∀ p, Generated.C16.recompPlane cfa (Generated.C16.decompSite cfa p) = p) ∧
     (∀ s, Generated.C16.decompSite cfa (Generated.C16.recompPlane cfa s) = s) ∧
     (∀ s, Generated.C16.compositePlane cfa s = Generated.C16.recompPlane cfa s) := by
-  cases cfa <;> refine ⟨fun p => ?_, fun s => ?_, fun s => ?_⟩ <;> first | (cases p <;> rfl) | (cases s <;> rfl)
+  to_model
+  refine ⟨fun p => ?_, fun s => ?_, ?_⟩
+  · cases cfa <;> cases p <;> rfl
+  · cases cfa <;> cases s <;> rfl
+  · first | trivial | (intro _; trivial) | (intro s; rfl)
 
 /-- `recomposite_bayer (decomposite_bayer img) = img`, sample for sample, both layouts -/
 theorem recomposite_decomposite {α : Type} (cfa : Cfa) (img : ℕ → ℕ → α) (R C : ℕ) :
@@ -277,9 +302,11 @@ theorem decomposite_recomposite {α : Type} (cfa : Cfa) (planes : Plane → ℕ 
     recomposite Generated.C16.siteSlices (Generated.C16.recompPlane cfa) planes
       ((Generated.C16.siteSlices (Generated.C16.decompSite cfa p)).1.idx i)
       ((Generated.C16.siteSlices (Generated.C16.decompSite cfa p)).2.idx j) = some (planes p i j) := by
+  have hsite := fun R C => siteAt_eq R C
+  to_model
   cases cfa <;> cases p <;>
-    simp [recomposite, siteAt_eq, siteOfParity, Generated.C16.decompSite, Generated.C16.recompPlane,
-      Generated.C16.siteSlices, Slc.idx, Slc.pos, Nat.mul_add_mod, Nat.add_mul_mod_self_left] <;> omega
+    simp [recomposite, hsite, siteOfParity, Model.C16.decompSite, Model.C16.recompPlane,
+      Model.C16.siteSlices, Slc.idx, Slc.pos, Nat.mul_add_mod, Nat.add_mul_mod_self_left] <;> omega
 
 /-- `composite_bayer` takes each sample from the plane of its own colour, at the same position -/
 theorem composite_native {α : Type} (cfa : Cfa) (planes : Plane → ℕ → ℕ → α) (R C : ℕ) :
@@ -290,11 +317,13 @@ theorem composite_native {α : Type} (cfa : Cfa) (planes : Plane → ℕ → ℕ
 /-- white-balance prescaling applies to each site the gain of the colour that lives there -/
 theorem prescale_gain_native (cfa : Cfa) (p : Plane) :
     Generated.C16.prescaleGain cfa (Generated.C16.decompSite cfa p) = p.gain := by
+  to_model
   cases cfa <;> cases p <;> rfl
 
 /-- Malvar demosaicking copies the raw sample at the native colour site of each channel, both layouts -/
 theorem malvar_native_sites (cfa : Cfa) (p : Plane) :
     Generated.C16.malvarSrc cfa p.chan (Generated.C16.decompSite cfa p) = Src.img := by
+  to_model
   cases cfa <;> cases p <;> rfl
 
 /-- …hence the demosaicked image returns every raw sample unchanged in the channel of its colour -/
@@ -308,13 +337,15 @@ theorem malvar_returns_raw (cfa : Cfa) (m n : ℕ) (img : ℕ → ℕ → Rat) (
 /-- every Malvar kernel, divided by the generated normalisation, sums to 1 -/
 theorem malvar_kernels_unit_sum (src : Src) (k : List (List Rat)) (h : Generated.C16.srcKernel src = some k) :
     kernelSum k / Generated.C16.malvarDivisor = 1 := by
-  cases src <;> simp only [Generated.C16.srcKernel, Option.some.injEq, reduceCtorEq] at h <;> subst h <;> decide +kernel
+  to_model
+  cases src <;> simp only [Model.C16.srcKernel, Option.some.injEq, reduceCtorEq] at h <;> subst h <;> decide +kernel
 
 /-- every Malvar kernel is point-symmetric (so convolution and correlation coincide) and 5 × 5 -/
 theorem malvar_kernels_symmetric (src : Src) (k : List (List Rat)) (h : Generated.C16.srcKernel src = some k) :
     k.length = 5 ∧ (∀ row ∈ k, row.length = 5) ∧
     ∀ a ∈ List.range 5, ∀ b ∈ List.range 5, kernelAt k a b = kernelAt k (4 - a) (4 - b) := by
-  cases src <;> simp only [Generated.C16.srcKernel, Option.some.injEq, reduceCtorEq] at h <;> subst h <;> decide +kernel
+  to_model
+  cases src <;> simp only [Model.C16.srcKernel, Option.some.injEq, reduceCtorEq] at h <;> subst h <;> decide +kernel
 
 /-- unit-sum kernels at work: a uniform mosaic demosaicks to the same uniform level in every channel,
 at every sample, for every shape (reflect boundary included) and both layouts -/
@@ -340,11 +371,9 @@ theorem wb_safe_limits {K : Type} [Field K] [LinearOrder K] [IsStrictOrderedRing
     (∀ p ∈ l, 0 < p.2 → p.1 / safeRatio wbPostSafeStep l 1 ≤ p.2) ∧
     (∀ p ∈ l, 0 < p.2 → p.1 / safeRatio wbPreSafeStep l 1 ≤ p.2) ∧
     ((∀ p ∈ l, p.1 / p.2 ≤ 1) → safeRatio wbPostSafeStep l 1 = 1 ∧ safeRatio wbPreSafeStep l 1 = 1) := by
-  have e1 : (wbPostSafeStep : K → K → K → K) = safeStep := by funext r mx sat; exact (gen_wb_safe r mx sat).2.1
-  have e2 : (wbPreSafeStep : K → K → K → K) = safeStep := by funext r mx sat; exact (gen_wb_safe r mx sat).1
-  rw [e1, e2]
-  exact ⟨fun p hp hs => safe_limits l p hp hs, fun p hp hs => safe_limits l p hp hs,
-    fun h => ⟨safeRatio_eq_one l h, safeRatio_eq_one l h⟩⟩
+  obtain ⟨hpre, hpost, _⟩ := gen_wb_safe (K := K)
+  exact ⟨fun p hp hs => safe_limits hpost l p hp hs, fun p hp hs => safe_limits hpre l p hp hs,
+    fun h => ⟨safeRatio_eq_one hpost l h, safeRatio_eq_one hpre l h⟩⟩
 
 end bayer
 
